@@ -562,6 +562,28 @@ pub fn directed() -> Vec<Doc> {
             strays: vec![],
             secondary_segments: true,
         };
+        // the long entry read back one byte per call, and in short pieces with interruptions: a
+        // reader that mishandles a partial completion may also keep far too much in memory
+        for benign in [
+            Benign { one_byte_reads: true, ..Benign::quiet() },
+            Benign { short_read: 200, eintr_read: 40, ..Benign::quiet() },
+        ] {
+            out.push(Doc {
+                prop: "C18".into(),
+                seed: 0xD1EC7ED0 + idx,
+                cfg: Cfg::Hostile,
+                benign,
+                io_faults: vec![],
+                body: Body::C18(C18Doc::Archive {
+                    install: big.clone(),
+                    steps: vec![
+                        Step::Query { id: 1, kind: QKind::Extract, path: "chara/a/big.bin".into() },
+                        Step::Query { id: 2, kind: QKind::Extract, path: "chara/a/tex.tex".into() },
+                    ],
+                }),
+            });
+            idx += 1;
+        }
         let lay2 = layout_of(&big);
         let prefix_of = |n: &str| n.rfind('.').map(|p| n[..p].to_string()).unwrap_or_default();
         for (path, bytes, fields, _) in &lay2.files {
@@ -608,7 +630,9 @@ pub fn directed() -> Vec<Doc> {
     }
     // assets
     for format in super::assets::FORMATS {
-        for aseed in [1u64, 2] {
+        // (the texture builder has five variants, one per pixel format family)
+        let aseeds: &[u64] = if *format == "tex" { &[1, 2, 3, 4, 5] } else { &[1, 2] };
+        for &aseed in aseeds {
             let bytes = super::assets::build(format, aseed);
             let fields = super::assets::fields(format, aseed);
             let mut adoc = |dmg: Vec<Damage>, out: &mut Vec<Doc>| {
